@@ -717,18 +717,36 @@ func c18RRun(t *testing.T, rec *vRecorder, fl *c18Failer, stream string, c c18RC
 				}
 			}
 			steps = append(steps, fmt.Sprintf("TEnd %d %d %s %s", how, st.Status.DocsChanged, cqNList(pseqs), cqList(pend)))
-			// monitor (C18_finish_invalidates, repaired code): EVERY completed run has invalidated every principal for EVERY collection
+			// monitor (C18_finish_invalidates, repaired code): EVERY completed run has invalidated every principal for EVERY
+			// collection.  Exact predicate: the invalidation is stamped with the database's sequence counter and a stamp of 0
+			// means "not invalidated", so on a database whose counter is still 0 (no sequence was ever allocated: no document
+			// was ever written) the flags cannot be raised; there a later load must give exactly the admin grants (checked by
+			// reloading), the only thing an empty set of documents grants.
 			if how == 1 {
-				if allInval || len(c.Users) == 0 {
+				endSeq, _ := e.db.sequences.getSequence(e.ctx)
+				switch {
+				case allInval || len(c.Users) == 0:
 					dirty = false
-				} else {
+				case endSeq == 0:
+					rec.Err("completed_run:sequence_counter_zero")
+					dirty = false
+					if single {
+						for i, uo := range e.observeUsers(c.Users, ids) {
+							if !c18Eq(uo.Ch, c18Sorted(c.Users[i].Ch)) && len(c.Users[i].Roles) == 0 {
+								fl.Fail("finish_invalidates_all_collections", "resync-completed-principals-not-invalidated", map[string]any{"case": desc, "step": si, "user": uo},
+									"empty database: a reloaded user holds channels other than its admin grants")
+							}
+						}
+						steps = append(steps, c18LoadsCoqSteps(c.Users)...)
+					}
+				default:
 					sig := "resync-completed-principals-not-invalidated"
 					if st.Status.DocsChanged == 0 {
 						// the guard `docs_changed > 0` of the code before /repo bc044df
 						sig = "resync-reset-after-interrupted-run-principals-stale"
 					}
-					fl.Fail("finish_invalidates_all_collections", sig, map[string]any{"case": desc, "step": si, "docs_changed": st.Status.DocsChanged},
-						"the run reported completed but some principal's computed channels / roles are not invalidated for every collection")
+					fl.Fail("finish_invalidates_all_collections", sig, map[string]any{"case": desc, "step": si, "docs_changed": st.Status.DocsChanged, "sequence_counter": endSeq},
+						"the run reported completed, the database's sequence counter is positive, but some principal's computed channels / roles are not invalidated for every collection")
 				}
 			}
 			// monitor (regenerate_sequences, all collections): every principal document got a fresh sequence
@@ -772,6 +790,15 @@ func c18RRun(t *testing.T, rec *vRecorder, fl *c18Failer, stream string, c c18RC
 	coq := fmt.Sprintf("CRun %d %s %s %s %s %s %s %s %s", c.NCols, cqList(fs1), cqList(fs2), cqList(h1), cqList(us), cqList(rs), pseqCoq, docsCoq(before), cqList(steps))
 	rec.Size(fmt.Sprintf("run_docs=%d", len(ids)))
 	rec.Case(stream, "run", coq, desc, nontrivial && interrupted > 0 || c.NCols > 1 && nontrivial)
+}
+
+// the users of a case loaded one by one, as steps of the Coq case
+func c18LoadsCoqSteps(us []c18User) []string {
+	var out []string
+	for _, u := range us {
+		out = append(out, "TW (L "+cqN(c18Idx(u.Name))+")")
+	}
+	return out
 }
 
 func c18FindDoc(ds []c18Doc, id int) *c18Doc {
